@@ -530,8 +530,9 @@ class Engine:
                 elif oid == root and f == parts[-1]:
                     return True
             return False
+        scratch = getattr(self.dom, 'scratch_ghosts', ())
         for key, ov in old.heap.items():
-            if covered(key):
+            if covered(key) or (key[0] == 'G' and key[1] in scratch):
                 continue
             nv = st.heap.get(key, UNK)
             if nv is ov:
@@ -604,7 +605,14 @@ class Engine:
             fr = self.frames[-1]
             if len(self.frames) == 1 and fr.contract is not None and fr.contract.ghost_after_assign:
                 names = assigned_names([s])
-                for nm, gl in fr.contract.ghost_after_assign.items():
+                for nm0, gl in fr.contract.ghost_after_assign.items():
+                    nm, _, filt = nm0.partition('@')
+                    if filt == 'call' and not isinstance(s.value, ast.Call):
+                        continue
+                    if filt == 'elemcall' and not (isinstance(s.value, ast.Call) and isinstance(s.value.func, ast.Subscript)):
+                        continue        # x = P[i](...): a call of an element of a list
+                    if filt == 'const' and not isinstance(s.value, ast.Constant):
+                        continue
                     if nm in names:
                         for path, ex in gl:
                             self.ghost_assign(path, ex, st, fr.old)
@@ -984,9 +992,14 @@ class Engine:
             else:
                 # pure operand: guard its evaluation facts by reachability
                 sub = st.copy()
-                sub.assume(acc if is_and else z3.Not(acc))
+                guard = acc if is_and else z3.Not(acc)
+                n0 = len(sub.pc)
+                sub.assume(guard)
+                n1 = len(sub.pc)
                 r = d.truth(self.ev(v, sub), sub)
-                # transfer facts learnt in sub (e.g. from asserts in inlined pure functions) are dropped: sound
+                # facts learnt while evaluating the operand (contracts of called functions, asserts of inlined ones) hold where it is evaluated
+                for fact in sub.pc[n1:]:
+                    st.assume(z3.Implies(guard, fact))
                 acc = z3.And(acc, r) if is_and else z3.Or(acc, r)
         return acc
 
@@ -1199,11 +1212,18 @@ def own_breaks(loop):
 
 
 def assigned_names(stmts):
+    """local names (re)bound by the statements, including the base name of element / slice stores (a[i] = v, a[i, :] += v re-bind `a`: A-alias)"""
     names = set()
     for s in stmts:
         for n in ast.walk(s):
             if isinstance(n, ast.Name) and isinstance(n.ctx, ast.Store):
                 names.add(n.id)
+            elif isinstance(n, ast.Subscript) and isinstance(n.ctx, ast.Store):
+                b = n.value
+                while isinstance(b, ast.Subscript):
+                    b = b.value
+                if isinstance(b, ast.Name):
+                    names.add(b.id)
             elif isinstance(n, (ast.FunctionDef, ast.Lambda)):
                 pass
     return names
